@@ -296,3 +296,39 @@ func H_C20_after_earlier_calls() {
 	hCheckLine(isList, d.s, off, "parsing the same malformed document twice cites the same line")
 	verifReach("end")
 }
+
+// the error comes after earlier, COMPLETED nested containers that had whitespace (line breaks included) inside them:
+// every way of closing a container must hand the lines it consumed back to the enclosing one
+func H_C20_after_closed_containers() {
+	verifBound("WS_SLOTS_CLOSED", 4)
+	var d hDoc
+	isList := nondetIntRange(0, 1) == 1
+	if isList {
+		d.add("[")
+	} else {
+		d.add("{", `"a"`, ":")
+	}
+	switch nondetIntRange(0, 5) {
+	case 0:
+		d.add("{", hWS(), "}")
+	case 1:
+		d.add("[", hWS(), "]")
+	case 2:
+		d.add("[", "{", hWS(), "}", "]")
+	case 3:
+		d.add("{", `"k"`, ":", "{", hWS(), "}", "}")
+	case 4:
+		d.add("{", `"k"`, ":", "[", hWS(), "]", "}")
+	default:
+		d.add("[", "[", hWS(), "]", ",", "{", "\n", "}", "]")
+	}
+	d.add(hWS(), ",")
+	if !isList {
+		d.add(`"b"`, ":")
+	}
+	d.add(hWS(), hBadLiteral(), hWS())
+	off := len(d.s)
+	d.add(",", "\n", "1")
+	hCheckLine(isList, d.s, off, "line breaks inside earlier, completed nested containers count towards the cited line")
+	verifReach("end")
+}
